@@ -4,10 +4,10 @@ package main
 // of asserted path-condition nodes.
 
 import (
-	"os"
 	"bufio"
 	"fmt"
 	"io"
+	"os"
 	"os/exec"
 	"strconv"
 	"strings"
@@ -41,26 +41,26 @@ func (p *PC) list() []*Term {
 }
 
 type Solver struct {
-	cmd     *exec.Cmd
-	in      io.WriteCloser
-	bw      *bufio.Writer
-	out     *bufio.Reader
-	ts      *TermStore
-	stack   []*PC     // asserted nodes, one push level each
-	defd    [][]int   // term ids defined at each level (level 0 = base)
-	isDef   map[int]bool
-	Queries int
-	Sat     int
-	Unsat   int
-	Unknown int
-	Time    time.Duration
-	Errors  []string
-	kind    string
-	timeout int // ms per query
-	logw    io.Writer
-	killed  bool
+	cmd      *exec.Cmd
+	in       io.WriteCloser
+	bw       *bufio.Writer
+	out      *bufio.Reader
+	ts       *TermStore
+	stack    []*PC   // asserted nodes, one push level each
+	defd     [][]int // term ids defined at each level (level 0 = base)
+	isDef    map[int]bool
+	Queries  int
+	Sat      int
+	Unsat    int
+	Unknown  int
+	Time     time.Duration
+	Errors   []string
+	kind     string
+	timeout  int // ms per query
+	logw     io.Writer
+	killed   bool
 	Timeouts int
-	seed    int
+	seed     int
 }
 
 func NewSolver(ts *TermStore, kind string, timeoutMs int, seed int) (*Solver, error) {
